@@ -110,7 +110,13 @@ func (g *FastGoBackend) genFastRead(w *codewriter, scope *golang.Scope, s *golan
 		}
 	}
 	w.f("default:") // default case, skip
-	w.f("	l, err = x.Skip(b[off:], ftyp)")
+	// gopkg's TType is int8 and its Skip indexes a [256]int8 table with it: a type byte >= 0x80 (here, or as
+	// element/key/value/field type inside the skipped value) would panic with index out of range.
+	w.f("	if ftyp < 0 { err = thrift.NewProtocolException(thrift.INVALID_DATA, \"unknown data type\"); goto SkipFieldError }")
+	w.f("	l, err = func() (n int, e error) {")
+	w.f("		defer func() { if r := recover(); r != nil { n, e = 0, thrift.NewProtocolException(thrift.INVALID_DATA, fmt.Sprint(\"skip: \", r)) } }()")
+	w.f("		return x.Skip(b[off:], ftyp)")
+	w.f("	}()")
 	w.f("	off += l")
 	w.f("	if err != nil { goto SkipFieldError }")
 	w.f("}") // switch fid ends
